@@ -40,7 +40,8 @@ class FrontEnd:
     def stop_script(self, path, web_app=injected):
         script_control = web_app.get_script_control(path)
         if script_control is not None and script_control.running:
-            web_app.stop_script(path)
+            # Jobs are named by the (escaped) path of their script control.
+            web_app.stop_script(script_control.path)
             return self.render_action(script_control, "Stop Requested")
         return self.index()
 
